@@ -1,5 +1,6 @@
 import Cpppo.Proofs.ConcurrentArr
 import Cpppo.Proofs.ConcurrentLgx
+import Cpppo.Proofs.Forwards
 
 /-!
 # C09 — Concurrent sessions are isolated and each request is atomic
@@ -399,3 +400,114 @@ example (d : Logix.Dev) (prog : Sid → List (Frame Logix.Simple)) (sched : List
   linearizable execLgx d prog sched
 
 end Cpppo.Concurrent
+
+/-!
+## Connected (Forward Open) sessions: the Connection Manager's shared table
+
+`Connection_Manager.forwards` (`server/enip/device.py`) is one dict shared by all session threads, keyed by
+`(peer host, peer port, O->T connection ID)`.  `Cpppo.Forwards.step` mirrors Forward Open, Forward Close, the
+end of a session, and the routing decision of a Connected request.  The theorems quantify over **every
+interleaving of every number of sessions' operations** (`ops : List Op`, any length) and every initial table.
+Each operation is one step: the dict insert / the key scan + `del` are taken to be atomic with respect to the
+other session threads (GIL; the scan runs on a `list(...)` copy of the keys) - the same named residue as above.
+-/
+namespace Cpppo.Forwards
+
+/-- **Session isolation for Connected sessions.**  What a session is answered (Forward Open accepted or
+refused, every Connected request delivered through its connection / routed by its own path / failing to
+parse) over any interleaving with any other sessions' operations is exactly what it is answered when it
+runs alone on its own part of the table: no operation of another peer - in particular another session
+ending, or a Forward Close with the same connection serial from another peer - can change it. -/
+theorem connected_session_isolation (p : Peer) (ops : List Op) (t : Table) :
+    outsOf p t ops = (run (restrict p t) (ops.filter (fun op => decide (op.peer = p)))).2 :=
+  outsOf_restrict p ops t
+
+/-- one-step form: an operation of another peer changes no lookup of this peer's connections
+(peers differ when host **or** port differ) -/
+theorem other_peer_untouched (t : Table) (op : Op) (k : Key) (h : op.peer ≠ k.peer) :
+    lookup (step t op).1 k = lookup t k := by
+  obtain ⟨p, c⟩ := k
+  have := step_restrict_other p t op h
+  rw [← lookup_restrict p (step t op).1 c, this, lookup_restrict]
+
+/-- the end of a session purges every one of its connections … -/
+theorem fin_purges_own (t : Table) (p : Peer) (c : Nat) : lookup (step t (.fin p)).1 ⟨p, c⟩ = none :=
+  lookup_filter_of_drop _ t _ (by intro e; simp)
+
+/-- … a Forward Close purges exactly the peer's connections carrying that serial, and keeps its others -/
+theorem fclose_keeps_other_serial (t : Table) (p : Peer) (s c : Nat) (e : Entry)
+    (h : lookup t ⟨p, c⟩ = some e) (hs : e.serial ≠ s) : lookup (step t (.fclose p s)).1 ⟨p, c⟩ = some e := by
+  induction t with
+  | nil => simp [lookup] at h
+  | cons kv r ih =>
+    obtain ⟨k', e'⟩ := kv
+    simp only [lookup] at h
+    by_cases hk : k' = ⟨p, c⟩
+    · simp only [hk, if_true, Option.some.injEq] at h
+      subst h; subst hk
+      simp [step, List.filter, hs, lookup]
+    · simp only [hk, if_false] at h
+      have := ih h
+      simp only [step] at this ⊢
+      cases hf : (!(decide ((k', e').1.peer = p) && decide ((k', e').2.serial = s))) <;>
+        simp only [List.filter, hf, lookup, hk, if_false, this]
+
+theorem fclose_purges_serial (t : Table) (p : Peer) (s c : Nat) (e : Entry)
+    (h : lookup (step t (.fclose p s)).1 ⟨p, c⟩ = some e) : e.serial ≠ s := by
+  induction t with
+  | nil => simp [step, lookup] at h
+  | cons kv r ih =>
+    obtain ⟨k', e'⟩ := kv
+    simp only [step] at h ih
+    cases hf : (!(decide ((k', e').1.peer = p) && decide ((k', e').2.serial = s)))
+    · simp only [List.filter, hf] at h
+      exact ih h
+    · simp only [List.filter, hf, lookup] at h
+      by_cases hk : k' = ⟨p, c⟩
+      · simp only [hk, if_true, Option.some.injEq] at h
+        subst h; subst hk
+        simpa using hf
+      · simp only [hk, if_false] at h
+        exact ih h
+
+/-- a Connected request through an open connection to the PCCC Object is delivered there, whatever other
+peers did in between: after `p`'s accepted Forward Open, as long as `p` itself neither closes nor ends -/
+theorem open_connection_survives (p : Peer) (cid serial : Nat) (tgt : Target) (t : Table) (others : List Op)
+    (hfree : lookup t ⟨p, cid⟩ = none) (hoth : ∀ op ∈ others, op.peer ≠ p) :
+    lookup (run (step t (.fopen p cid serial tgt)).1 others).1 ⟨p, cid⟩ = some ⟨serial, tgt⟩ := by
+  have h0 : lookup (step t (.fopen p cid serial tgt)).1 ⟨p, cid⟩ = some ⟨serial, tgt⟩ := by
+    simp [step, hfree, lookup_append, lookup]
+  generalize (step t (.fopen p cid serial tgt)).1 = t' at h0
+  induction others generalizing t' with
+  | nil => exact h0
+  | cons op ops ih =>
+    simp only [run]
+    apply ih (fun o ho => hoth o (List.mem_cons_of_mem _ ho))
+    rw [other_peer_untouched t' op ⟨p, cid⟩ (hoth op List.mem_cons_self)]
+    exact h0
+
+/-- the table is a dict: keys stay unique over every operation sequence -/
+theorem table_keys_unique (ops : List Op) : KeysNodup (run [] ops).1 :=
+  run_keysNodup ops [] (by simp [KeysNodup])
+
+/-! sensitivity / non-vacuity -/
+
+/-- purging by host only (ignoring the port) breaks isolation: session B (10.0.0.1:1001) opened a connection
+to the PCCC Object, session A (same host, port 1000) ends, B's DF1 request fails - alone, B is served -/
+theorem hostOnly_counterexample :
+    let A : Peer := ⟨1, 1000⟩
+    let B : Peer := ⟨1, 1001⟩
+    let ops := [Op.fopen B 5 7 .pccc, .send B 5 .df1, .fin A, .send B 5 .df1]
+    outsOfHostOnly B [] ops = [.opened, .viaPccc, .failed]
+    ∧ outsOf B [] ops = [.opened, .viaPccc, .viaPccc] := by decide
+
+example : -- hypotheses of `open_connection_survives` / `fclose_keeps_other_serial` are satisfiable, non-trivially
+    let A : Peer := ⟨1, 1000⟩
+    let B : Peer := ⟨1, 1001⟩
+    let C : Peer := ⟨2, 1001⟩
+    let ops := [Op.fopen A 5 7 .router, .fopen B 5 7 .pccc, .fopen B 6 8 .pccc, .fopen B 5 9 .router,
+                .fclose A 7, .fclose C 7, .fclose B 8, .send B 5 .df1, .send B 6 .df1, .send A 5 .cip, .fin C]
+    (run [] ops).2 = [.opened, .opened, .opened, .refused, .closed, .closed, .closed, .viaPccc, .failed, .viaRouter, .ended]
+    ∧ (run [] ops).1 = [(⟨B, 5⟩, ⟨7, .pccc⟩)] := by decide
+
+end Cpppo.Forwards
